@@ -18,7 +18,7 @@ from mc.ref import dot as D
 
 PLAN = {
     "quick": ([("D3", 2), ("C2", 2), ("K1", 2), ("M5", 2), ("M4", 2), ("D1", 2), ("D2", 2), ("D0", 2), ("C1", 2), ("L1", 2), ("G1", 2), ("M1", 2), ("M2", 2)], 1),
-    "thorough": ([("D3", 3), ("C2", 3), ("K1", 2), ("M5", 3), ("M4", 3), ("D1", 3), ("D2", 3), ("D0", 3), ("C1", 3), ("L1", 3), ("G1", 3), ("M1", 3), ("M2", 3)], 1),
+    "thorough": ([("D3", 2), ("C2", 3), ("K1", 2), ("M5", 2), ("M4", 3), ("D1", 3), ("D2", 2), ("D0", 3), ("C1", 3), ("L1", 3), ("G1", 2), ("M1", 2), ("M2", 2)], 1),
 }
 _DEPTH = 0
 _KINDS = ("reuse", "del", "insert", "meta")  # quick: one mutation of each of these kinds per program
